@@ -1143,3 +1143,38 @@ Theorem c13_vcf_text_header_cut_verdict :
         end.
 Proof. exact vcf_text_header_cut_verdict. Qed.
 Print Assumptions c13_vcf_text_header_cut_verdict.
+
+(* ---- wave 10b: ERROR KINDS of the BAI reader on a truncated stream.  The reader with kinds is
+   C12's read program NV.Io.IndexProg.p_bai (= read_index of noodles-bam/src/bai/io/reader/index.rs,
+   proved there to erase to C17's read_bai); NV.Trunc.ProgCut proves for every STRICT read program
+   (read_exact only) that a prefix of accepted bytes can only be refused with UnexpectedEof ---- *)
+From NV Require Import Io.Prog Io.IndexProg Trunc.ProgCut.
+
+(* any read program made of read_exact reads only: once it accepts d, no prefix of d makes it
+   report InvalidData (or anything but UnexpectedEof) *)
+Theorem c13_strict_program_prefix_kind : forall (A : Type) (p : prog A), strict p ->
+  forall d a, fst (run_pure p d) = RVal a ->
+  forall j e, fst (run_pure p (firstn j d)) = RErr e -> e = Stream.UnexpectedEof.
+Proof. exact strict_prefix_kind. Qed.
+Print Assumptions c13_strict_program_prefix_kind.
+
+(* the same for read_index of BAI on ANY accepted bytes (not only written files), although its
+   last read (n_no_coor) is optional *)
+Theorem c13_bai_prefix_error_kind : forall d i, fst (run_pure p_bai d) = RVal i ->
+  forall j e, fst (run_pure p_bai (firstn j d)) = RErr e -> e = Stream.UnexpectedEof.
+Proof. exact bai_prefix_kind. Qed.
+Print Assumptions c13_bai_prefix_error_kind.
+
+(* every cut of the file written for a well-formed index: UnexpectedEof below the end of the
+   references; THE DOCUMENTED EXCEPTION, stated exactly: with 0..7 bytes of the optional trailing
+   n_no_coor present the reader returns Ok with the same references and the count absent; the
+   index itself on the whole file *)
+Theorem c13_bai_truncation_error_kind : forall i k, bai_ok i ->
+  let file := w_bai i in
+  let base := length (w_bai (mkbai (bi_refs i) None)) in
+  ((k < base)%nat -> fst (run_pure p_bai (firstn k file)) = RErr Stream.UnexpectedEof) /\
+  ((base <= k < length file)%nat ->
+     fst (run_pure p_bai (firstn k file)) = RVal (mkbai (bi_refs i) None)) /\
+  ((length file <= k)%nat -> fst (run_pure p_bai (firstn k file)) = RVal i).
+Proof. exact bai_cut_kind. Qed.
+Print Assumptions c13_bai_truncation_error_kind.
